@@ -526,20 +526,48 @@ def rule_optable(repo):
     if f is None:
         raise AnalysisError("anchor vanished: Bits.int")
     me = self_name(f)
-    ifs = [s for s in f.body if isinstance(s, ast.If)]
-    good = False
-    if len(ifs) == 1 and not ifs[0].orelse:
-        t = norm(ifs[0].test).replace(me + '.', 'self.')
-        neg = norm(ifs[0].body).replace(me, 'self')
-        tail = norm(f.body[-1]).replace(me + '.', 'self.')
-        good = t in ('self._uint >> self._nbits - 1', '(self._uint >> self._nbits - 1) & 1',
-                     'self._uint >> self._nbits - 1 != 0', 'self._uint & 1 << self._nbits - 1',
-                     'self._uint >= 1 << self._nbits - 1') \
-            and neg in ('return -int(~self + 1)', 'return -int(~self + 1)', 'return self._uint - (1 << self._nbits)',
-                        'return int(self._uint) - (1 << self._nbits)', "return -(~self._uint + 1 & _upper[self._nbits])") \
-            and tail in ('return self._uint', 'return int(self._uint)')
+    # the body is evaluated on a reference model of the value (uint, nbits; ~x and x + k wrap to the width, int(x) is the
+    # unsigned reading -- the operators' own clauses above decide that the real ones behave so) for small and extreme widths
+    tables = fold_tables(m)
+
+    class _Ref:
+        def __init__(s_, u, n):
+            s_.u, s_.n = u & ((1 << n) - 1), n
+        def __invert__(s_):
+            return _Ref(~s_.u, s_.n)
+        def __add__(s_, k):
+            return _Ref(s_.u + int(k), s_.n)
+        __radd__ = __add__
+        def __sub__(s_, k):
+            return _Ref(s_.u - int(k), s_.n)
+        def __neg__(s_):
+            return _Ref(-s_.u, s_.n)
+        def __int__(s_):
+            return s_.u
+        __index__ = __int__
+    top = min(len(tables.get('_upper') or [0] * 1024), len(tables.get('_lower') or [0] * 1024)) - 1
+    wrong = None
+    for n in sorted({1, 2, 3, 8, 64, top}):
+        for u in sorted({0, 1, (1 << (n - 1)) - 1, 1 << (n - 1), (1 << (n - 1)) + 1, (1 << n) - 2, (1 << n) - 1, (1 << n) // 3}):
+            if not 0 <= u < (1 << n):
+                continue
+            r.evaluations += 1
+            env = {me: _Ref(u, n), f"{me}._uint": u, f"{me}._nbits": n, f"{me}.nbits": n}
+            env.update({k: v for k, v in tables.items() if isinstance(v, list)})
+            kind, val = Evaluator(env, arith=True, funcs={'int': int, 'bool': bool, 'abs': abs}).run(f.body)
+            want = u - (1 << n) if u >> (n - 1) else u
+            got = int(val) if kind == 'return' and isinstance(val, (int, _Ref)) and not isinstance(val, bool) else None
+            if kind != 'return' or got != want or isinstance(val, _Ref):
+                short = lambda v: str(v) if not isinstance(v, int) or abs(v) < (1 << 70) else \
+                    f"{'-' if v < 0 else ''}(a {abs(v).bit_length()}-bit number)"
+                d = u - (1 << (n - 1))
+                wrong = wrong or (n, (f"2^{n - 1}" + (f"+{short(d)}" if d else '')) if d >= 0 else short(u),
+                                  f"raises {val}" if kind == 'raise' else
+                                  ("returns a Bits, not an int" if isinstance(val, _Ref) else f"returns {short(val)}"), short(want))
+    good = wrong is None
     (r.ok if good else r.bad)(m, 'Bits.int', norm(f.body)[:160],
-                              *([] if good else ["signed value must be -(2^n - uint) when the msb is set, else uint"]))
+                              *([] if good else [f"signed value must be -(2^n - uint) when the msb is set, else uint: for n={wrong[0]}, "
+                                                 f"uint={wrong[1]} int() {wrong[2]}, must be {wrong[3]}"]))
     r.require_floor(45)
     return r
 
@@ -842,6 +870,8 @@ def _m(name, old, new, rule=None, file=BITS, count=1):
 
 
 MUTANTS = [
+    _m('int-reads-the-bound-table-one-past-its-end', '    if self._uint >> (self._nbits - 1):\n      return -int(~self + 1)\n    return self._uint\n', "    if self._uint >> (self._nbits - 1):\n      return self._uint + _lower[self._nbits + 1]\n    return self._uint\n", 'R-C04-optable'),
+    _m('int-sign-from-the-wrong-bit', '    if self._uint >> (self._nbits - 1):\n      return -int(~self + 1)\n    return self._uint\n', "    if self._uint >> self._nbits:\n      return -int(~self + 1)\n    return self._uint\n", 'R-C04-optable'),
     _m('setitem-exact-type-test', "    if isinstance( idx, slice ):\n      if idx.step:\n        raise IndexError( \"Index cannot contain step\" )\n      try:\n        start = 0 if idx.start is None else int(idx.start)\n        stop  = self._nbits if idx.stop is None else int(idx.stop)\n        assert 0 <= start < stop <= self._nbits\n      except:\n        raise IndexError( f\"Invalid access: [{idx.start}:{idx.stop}] in a Bits{self._nbits} instance\" )\n\n      slice_nbits = stop - start\n      if isinstance( v, Bits ):",
        "    if isinstance( idx, slice ):\n      if idx.step:\n        raise IndexError( \"Index cannot contain step\" )\n      try:\n        start = 0 if idx.start is None else int(idx.start)\n        stop  = self._nbits if idx.stop is None else int(idx.stop)\n        assert 0 <= start < stop <= self._nbits\n      except:\n        raise IndexError( f\"Invalid access: [{idx.start}:{idx.stop}] in a Bits{self._nbits} instance\" )\n\n      slice_nbits = stop - start\n      if type( v ) is Bits:", 'R-C04-operand-kind'),
     _m('ctor-store-before-check', "      up = _upper[nbits]\n\n      if not trunc_int:\n        lo = _lower[nbits]\n        if v < lo or v > up:\n          raise ValueError( f\"Value {hex(v)} is too wide for Bits{nbits}!\\n\" \\\n                            f\"(Bits{nbits} only accepts {hex(lo)} <= value <= {hex(up)})\" )\n      self._uint = v & up",
@@ -910,6 +940,9 @@ MUTANTS = [
 ]
 
 EQUIV = [
+    _m('int-sign-bit-in-a-local-arms-swapped', '    if self._uint >> (self._nbits - 1):\n      return -int(~self + 1)\n    return self._uint\n', "    sign_bit = self._uint >> (self._nbits - 1)\n    if not sign_bit:\n      return self._uint\n    return -int(~self + 1)\n"),
+    _m('int-by-subtracting-the-modulus', '    if self._uint >> (self._nbits - 1):\n      return -int(~self + 1)\n    return self._uint\n', "    if self._uint & (1 << (self._nbits - 1)):\n      return self._uint - (1 << self._nbits)\n    return self._uint\n"),
+    _m('int-through-the-bound-table', '    if self._uint >> (self._nbits - 1):\n      return -int(~self + 1)\n    return self._uint\n', "    if self._uint >> (self._nbits - 1):\n      return self._uint + 2 * _lower[self._nbits]\n    return self._uint\n"),
     _m('hash-key-local', "    return hash((self._nbits, self._uint))", "    key = (self._nbits, self._uint)\n    return hash(key)"),
     _m('guard-as-not-chain', r"""      up = _upper[ nbits ]
       if other < 0 or other > up:
